@@ -122,10 +122,11 @@ def expand(ref, st, top=True):
 
 
 def _force_first(ref):
+    """content for a required group whose members are all optional: its first member - a group with what THAT group requires"""
     for (name, cref, (mn, mx), kind) in ref[1]:
         if kind == 'SEG':
             return [('SEG', name)]
-        inner = _force_first(cref)
+        inner = expand(cref, _State(0, (0, 0)), False) or _force_first(cref)
         if inner:
             return [('GRP', name, inner)]
     return []
